@@ -15,8 +15,24 @@ from .joinrules import _canon, determinism_of_function
 
 
 def vector_reduction_facts(prog, name: str) -> dict:
+    """Facts of Vector.<name> read from the NORMAL FORM of its scalar (1-D) result: helpers inlined, locals propagated, the
+    per-column recursion of tables left out."""
+    from ..symx import Interp as SInterp
+    from ..symx import normalised_function, subterms
     f = prog.func(f"vector.Vector.{name}")
-    return facts_of(f.node, "self._underlying")
+    it = SInterp(prog, f)
+    rets = [e for e in it.events if e.kind == "return" and e.depth == 0]
+
+    def is_table_recursion(t) -> bool:
+        for x in subterms(t):
+            if x[0] == "call" and x[1][0] == "attr" and x[1][2] in ("copy", "cols") or (x[0] == "attr" and x[2] == "T"):
+                return True
+            if x[0] == "call" and x[1] in (("name", "Vector"), ("name", "Table")):
+                return True
+        return False
+    scalar = [e for e in rets if not is_table_recursion(e.term)]
+    fn = normalised_function(it, scalar, name)
+    return facts_of(fn, "self._underlying")
 
 
 def fmt(facts: dict) -> str:
